@@ -23,19 +23,20 @@ import (
 
 // Spec selects one cell's program and failure. It is passed (JSON) as the Func argument.
 type Spec struct {
-	Case   int    // index into the process-global table
-	Family string // "direct": the armed operator is last, its output is the result; "reduce": ... -> Reduce(sum) tail
-	Site   string // reader writer map filter flatmap fold combiner repart scan none
-	Layout string // key layout: distinct | fold | G | table | buffer | merge
-	Mode   string // err tempbase tempnet panic oorhi oorneg
-	Pers   string // always | once
-	Chunk  int    // internal vector size in force in this process
-	N      int    // rows per source shard
-	Shard  int    // shard (of the armed operator) in which the failure is placed
-	Target int    // row index (in the armed operator's input stream of that shard); == stream length for "at EOF"
-	Mask   int    // for value-addressed sites: the value bit(s) that identify the target row(s)
-	Both   bool   // layout "buffer": place the target row (index Target) in both shards
-	Msg    string // the user's message
+	Case      int    // index into the process-global table
+	Family    string // "direct": the armed operator is last, its output is the result; "reduce": ... -> Reduce(sum) tail
+	Site      string // reader writer map filter flatmap fold combiner repart scan none
+	Layout    string // key layout: distinct | fold | G | table | buffer | merge
+	Mode      string // err tempbase tempnet panic oorhi oorneg
+	Pers      string // always | once
+	Chunk     int    // internal vector size in force in this process
+	N         int    // rows per source shard
+	Shard     int    // shard (of the armed operator) in which the failure is placed
+	Target    int    // row index (in the armed operator's input stream of that shard); == stream length for "at EOF"
+	Mask      int    // for value-addressed sites: the value bit(s) that identify the target row(s)
+	Exclusive bool   // the Map of the healthy program carries the bigslice.Exclusive pragma
+	Both      bool   // layout "buffer": place the target row (index Target) in both shards
+	Msg       string // the user's message
 }
 
 const nshard = 2
@@ -272,12 +273,18 @@ func build(s *Spec) bigslice.Slice {
 
 	switch s.Site {
 	case "map", "none":
+		var prags []bigslice.Pragma
+		if s.Exclusive {
+			// every task of this Map needs ALL procs of the session (local) / of its
+			// machine (cluster): a single proc leaked by an earlier run blocks it forever
+			prags = append(prags, bigslice.Exclusive)
+		}
 		slice = bigslice.Map(slice, func(k, v int) (int, int) {
 			if armed("map") && valueAt(v) && s.trip() {
 				s.fail()
 			}
 			return k, v
-		})
+		}, prags...)
 	case "filter":
 		slice = bigslice.Filter(slice, func(k, v int) bool {
 			if valueAt(v) && s.trip() {
